@@ -53,63 +53,70 @@ func (self *Compiler) compilePrefixOp(op ast.PrefixOperator, span errors.Span) {
 //
 
 func (self *Compiler) compileCallExpr(node ast.AnalyzedCallExpression) {
-	// Push each argument onto the stack
-	// The arguments are evaluated from left to right: the callee pops its parameters in reverse order.
 	argc := uint(len(node.Arguments.List))
-	for i := range node.Arguments.List {
-		self.compileOperand(node.Arguments.List[i].Expression, uint(i))
-	}
 
+	// Everything is evaluated from left to right: a called value (the method of a value, a variable which holds
+	// a function, the result of another call) first, then the arguments.
+	// The callee pops its parameters in reverse order, `Call_Val` finds the called value below the arguments.
+	callsValue := true
+	fnName := ""
 	if node.Base.Kind() == ast.IdentExpressionKind {
 		base := node.Base.(ast.AnalyzedIdentExpression)
 
-		// Special case: base is `throw`
-		if base.Ident.Ident() == "throw" {
-			self.insert(newPrimitiveInstruction(Opcode_Throw), node.Range)
-			return
-		}
-
 		// Check whether the scope is local or global
-		_, found := self.getMangled(base.Ident.Ident())
-		if found {
-			if node.IsSpawn {
-				panic("This is an impossible state.")
-			}
-
-			self.compileOperand(node.Base, argc)
-			self.insert(newValueInstruction(Opcode_Copy_Push, *value.NewValueInt(int64(len(node.Arguments.List)))), node.Span())
-			self.insert(newPrimitiveInstruction(Opcode_Call_Val), node.Span())
-		} else {
+		if _, isVariable := self.getMangled(base.Ident.Ident()); base.Ident.Ident() == "throw" {
+			callsValue = false
+		} else if !isVariable {
 			// TODO: the span mapping is broken here?
-			name, found := self.getMangledFn(base.Ident.Ident())
-			if found {
-				opcode := Opcode_Call_Imm
-				if node.IsSpawn {
-					opcode = Opcode_Spawn
-					self.insert(newValueInstruction(Opcode_Copy_Push, *value.NewValueInt(int64(len(node.Arguments.List)))), node.Span())
-				}
-
-				self.insert(newOneStringInstruction(opcode, name), node.Span())
-			} else {
-				// call a global value
-				self.insert(newOneStringInstruction(Opcode_GetGlobImm, base.Ident.Ident()), node.Range)
-				self.insert(newValueInstruction(Opcode_Copy_Push, *value.NewValueInt(int64(len(node.Arguments.List)))), node.Span())
-				self.insert(newPrimitiveInstruction(Opcode_Call_Val), node.Range)
+			if name, isFunction := self.getMangledFn(base.Ident.Ident()); isFunction {
+				callsValue = false
+				fnName = name
 			}
 		}
-	} else {
-		if node.IsSpawn {
-			panic("This is an impossible state.")
-		}
-
-		self.compileOperand(node.Base, argc)
-
-		// insert number of args
-		self.insert(newValueInstruction(Opcode_Copy_Push, *value.NewValueInt(int64(len(node.Arguments.List)))), node.Span())
-
-		// perform the actual call
-		self.insert(newPrimitiveInstruction(Opcode_Call_Val), node.Span())
 	}
+
+	if node.IsSpawn && (callsValue || fnName == "") {
+		panic("This is an impossible state.")
+	}
+
+	pendingValue := uint(0)
+	if callsValue {
+		if _, isVariable := self.getMangled(baseIdent(node.Base)); node.Base.Kind() == ast.IdentExpressionKind && !isVariable {
+			// call a global value
+			self.insert(newOneStringInstruction(Opcode_GetGlobImm, baseIdent(node.Base)), node.Range)
+		} else {
+			self.compileExpr(node.Base)
+		}
+		pendingValue = 1
+	}
+
+	// Push each argument onto the stack
+	for i := range node.Arguments.List {
+		self.compileOperand(node.Arguments.List[i].Expression, pendingValue+uint(i))
+	}
+
+	switch {
+	case callsValue:
+		// insert number of args and perform the actual call
+		self.insert(newValueInstruction(Opcode_Copy_Push, *value.NewValueInt(int64(argc))), node.Span())
+		self.insert(newPrimitiveInstruction(Opcode_Call_Val), node.Span())
+	case fnName == "":
+		// Special case: base is `throw`
+		self.insert(newPrimitiveInstruction(Opcode_Throw), node.Range)
+	case node.IsSpawn:
+		self.insert(newValueInstruction(Opcode_Copy_Push, *value.NewValueInt(int64(argc))), node.Span())
+		self.insert(newOneStringInstruction(Opcode_Spawn, fnName), node.Span())
+	default:
+		self.insert(newOneStringInstruction(Opcode_Call_Imm, fnName), node.Span())
+	}
+}
+
+// Returns the name of a called expression which is a plain identifier (empty otherwise).
+func baseIdent(base ast.AnalyzedExpression) string {
+	if base.Kind() != ast.IdentExpressionKind {
+		return ""
+	}
+	return base.(ast.AnalyzedIdentExpression).Ident.Ident()
 }
 
 //
